@@ -55,7 +55,8 @@ EXTRA = {
            " Standard errors from the Jacobian whitened like the fit "
            "(R14), argument binding over the blind-finding call graph "
            "(R15), negative sources mirror positive ones (R16)."
-           " The great-circle formulae behind the sky sizes are exact and well conditioned at small separations (R17).",
+           " The great-circle formulae behind the sky sizes are exact and well conditioned at small separations (R17)."
+           " The whitening matrix clips its eigenvalues relative to the largest one (R18); the rotation angle is fitted without bounds (R19).",
     "C02": " Also: the island loop visits all labels with the exact label "
            "slices, blanks a copy, and passes (row, column) offsets (R8)."
            " The image handed to find_islands has its background "
@@ -67,7 +68,8 @@ EXTRA = {
            " Out-of-group pixels are marked with NaN, never with a "
            "number a pixel can take (R8)."
            " find_islands does not write into its arguments (R10)."
-           " The seed test is aggregated over all own pixels (R2).",
+           " The seed test is aggregated over all own pixels (R2)."
+           " Forced noise / background maps are not replaced by the estimate (R11).",
     "C03": " Also: sign of every value stored into err_* (R11), the island "
            "number stored is the island's own (R2)."
            " The sexagesimal formatters carry after the integer "
@@ -78,7 +80,8 @@ EXTRA = {
            " The island cut-out excludes other islands' pixels (R15, "
            "shared with C01-R11)."
            " No state shared between SourceFinder instances (R16)."
-           " The priorized fitting box is cut with row bounds from row quantities and column bounds from column quantities (R17); pa_limit / fix_shape are interpreted over sample values (R4).",
+           " The priorized fitting box is cut with row bounds from row quantities and column bounds from column quantities (R17); pa_limit / fix_shape are interpreted over sample values (R4)."
+           " Island rows take their polarity the way the component fit does (R18); the formatters reproduce a reference decomposition over sample angles (R19); both RA wraps are interpreted (R4).",
     "C04": " Also: each err_* field depends on the stderr of its own "
            "parameter (R8, dependency analysis), covariance-model contract "
            "sites (R9), no narrow dtype in fitting.py (R7)."
@@ -87,7 +90,8 @@ EXTRA = {
            " No loop-carried state in the component loops (R11); axis "
            "roles of the coordinate arrays handed to the derivative "
            "routines (R9)."
-           " Fit, covariance and Fisher matrix select the same (finite) pixels (R12).",
+           " Fit, covariance and Fisher matrix select the same (finite) pixels (R12)."
+           " The whitening floor is relative to the largest eigenvalue (R13); guarded (piecewise) derivative rows must be right on both branches (R1).",
     "C05": " Also: refit lower shape bound <= blind-fit lower bound (R7, "
            "symbolic with counter-example), default regrouping length in "
            "arcmin (R8)."
@@ -98,7 +102,8 @@ EXTRA = {
            " The loops over islands, sources and batches run to "
            "completion (R11)."
            " Argument binding (R12), groupby only over sorted sequences "
-           "(R13), axis of clip bounds (R6).",
+           "(R13), axis of clip bounds (R6)."
+           " Single-pixel look-ups are guarded at both ends of both axes (R14); the psf branch of resize is interpreted over sample sizes (R15).",
     "C06": " Also: double precision until the final cast (R6), row / column "
            "axis discipline of the worker (R7), plane addressing of 3-d / "
            "4-d inputs (R8)."
@@ -113,7 +118,8 @@ EXTRA = {
            "read before the release are bound on failure paths (R4)."
            " No finite barrier timeout (R3); exported buffer views are "
            "released before close() (R4)."
-           " The closing node of each interpolation axis is >= the range stop for every stripe height (R8).",
+           " The closing node of each interpolation axis is >= the range stop for every stripe height (R8)."
+           " The stripe count does not depend on the worker count when a request is given (R9).",
     "C08": " Also: bypass paths of the set operations only where the "
            "operation is the identity (R3), the cache is never mutated in "
            "place (R9), no narrow integer / float dtype (R10), add_pixels "
@@ -123,7 +129,8 @@ EXTRA = {
            "shared with C09-R6)."
            " Shape builders store inclusive-query pixels at the query "
            "level (R14), plain pickling (R15), the normaliser writes "
-           "only levels 1..maxdepth (R6).",
+           "only levels 1..maxdepth (R6)."
+           " Every given pixel is merged (R11), the area is count x pixel area of the deepest level (R8), union covers all deeper levels (R3).",
     "C09": " Also: membership look-up contract of numpy.isin (R6), the "
            "non-finite mask is exact and taken from values that are still "
            "non-finite (R3), angular-length vs coordinate kinds."
@@ -131,7 +138,8 @@ EXTRA = {
            " Nothing applied before the degin conversion uses an "
            "angular constant (R8)."
            " Every stored pixel list comes from the inclusive query and "
-           "the storage level does not depend on the shape (R1).",
+           "the storage level does not depend on the shape (R1)."
+           " The depth clamp is interpreted for None / below / at / above maxdepth (R9); no fractional store into an inherited dtype (R10); the non-finite mask is decided per position (R3).",
     "C10": " Also: enumeration order of the pixel list vs reshape (R7), "
            "undefined coordinates never inside (R8), column-name kinds."
            " Paths that bypass the masked write exist only behind an "
@@ -141,7 +149,8 @@ EXTRA = {
            " The image is not narrowed to a smaller float type (R9)."
            " Masked table cells become undefined positions (R10), "
            "nothing memoised in regions / MIMAS (R11)."
-           " The membership look-up is called within numpy.isin's contract (R12).",
+           " The membership look-up is called within numpy.isin's contract (R12)."
+           " Coordinate columns reach the membership test with their mask (R10, callers included); the position list holds one entry per pixel in blocks of one row (R7).",
     "C11": " Also: the tested pixels are exactly the own pixels (R2), the "
            "flattening sees every stored level (R6)."
            " The region is never re-bound or dropped on a partial test; "
@@ -149,7 +158,8 @@ EXTRA = {
            " Derived caches of the membership test are reset with the "
            "demoted cache (R7)."
            " Membership answers are look-ups in the flattened set (R8)."
-           " The stored region is the given object, unmodified (R4).",
+           " The stored region is the given object, unmodified (R4)."
+           " The membership test is asked only by the island finders (R9).",
     "C12": " Also: cache aliasing (R6), vertex (lon, lat) order and RA in "
            "hours at SkyCoord (R4)."
            " No sign carried by an integer sexagesimal field in the DS9 "
@@ -157,7 +167,8 @@ EXTRA = {
            " The template's table is replaced on every path to the "
            "output (R3)."
            " Exports never iterate the level dictionary itself and the "
-           "normaliser stays within levels 1..maxdepth (R1).",
+           "normaliser stays within levels 1..maxdepth (R1)."
+           " MOC keywords go to the table HDU (R3); no masked overwrite in vec2sky (R7); corner vectors converted to degrees (R8); the set operations that precede an export (R9, shared with C08-R3).",
     "C13": " Also: parity analysis under image -> -image of the detection "
            "statistic, summit key, summit acceptance (R4) and of the "
            "catalogue fields (R5)."
@@ -166,7 +177,8 @@ EXTRA = {
            " The err_int_flux computation is interpreted for a source "
            "and its mirror image (R7)."
            " The island summary picks the same pixel for an island and "
-           "its negation (R8).",
+           "its negation (R8)."
+           " The filter tests peak_flux only (R1); peak and trough filters are mirror images without a one-sided fill (R10).",
     "C14": " Also: off-image skip guards evaluated over orderings (R4)."
            " The guards are also interpreted for an undefined (NaN) "
            "centre (R4)."
@@ -174,7 +186,8 @@ EXTRA = {
            " Sources are placed with the inverse of the catalogue's "
            "transformation family (R9); outputs of make_residual (R8)."
            " Argument binding in AeRes (R10); sorting a pair of "
-           "axis-typed values loses the axis role (R1).",
+           "axis-typed values loses the axis role (R1)."
+           " Threshold selection interpreted for frac in {None, 0, 0.0, 0.25} (R5); log-level dependent blocks bind nothing used later (R12); model centre = position - 1 (R13).",
     "C15": " Also: node arrays not edited after their definition, "
            "decimation starts at pixel 0 (R3)."
            " Row and column extents of compress never influence each "
@@ -184,7 +197,8 @@ EXTRA = {
            " Raw values are scaled by BSCALE exactly once wherever "
            "files are opened unscaled (R7)."
            " Every key rescaled by compress is rescaled back by expand "
-           "(R2); nothing memoised in fits_tools (R8).",
+           "(R2); nothing memoised in fits_tools (R8)."
+           " compress followed by expand restores every keyword and removes the BN_ keywords, interpreted over model headers (R2); the integer bookkeeping of compress is interpreted over sample sizes (R9); one HDU index (R10).",
     "C16": " Also: dependency of each output of the ellipse / vector "
            "transforms on its own inputs (R5), |cos(defect)| correction in "
            "both siblings (R7), no narrow dtype (R6)."
@@ -193,14 +207,16 @@ EXTRA = {
            " Forward and inverse WCS calls belong to one astropy family "
            "(R10)."
            " No snapping of computed coordinates to constants (R3), no "
-           "in-place arithmetic on an inherited dtype (R11).",
+           "in-place arithmetic on an inherited dtype (R11)."
+           " Argument binding over wcs_helpers (R12).",
     "C17": " Also: conditioning near zero separation (R6), purity of the "
            "vectorised primitives (R7), no narrow dtype (R8)."
            " The rounded seconds are an integer number of output "
            "quanta, not rescaled afterwards (R4)."
            " The placeholder is returned exactly for non-finite input "
            "(R9); no snapping in translate (R3)."
-           " The quantum of the rounded total is one printed unit (R4).",
+           " The quantum of the rounded total is one printed unit (R4)."
+           " arcsin / arccos arguments are clamped (R10); no whole-array decision in the formula functions (R11); the formatters reproduce a reference decomposition (R12); the parser's arithmetic is D +- (M/60 + S/3600) (R5).",
     "C18": " Also: exhaustive type dispatch of the sqlite and FITS writers "
            "(R7), value provenance in the reader (R4)."
            " No reordering between catalogue and table rows (R8)."
@@ -208,7 +224,8 @@ EXTRA = {
            " Column types are decided by all rows (R10)."
            " Exact float parsing on read (R11), nothing memoised in "
            "catalogs (R12)."
-           " No value-substituting function (nulls) is applied to individual field values (R13).",
+           " No value-substituting function (nulls) is applied to individual field values (R13)."
+           " No NaN / masked entry becomes a number (R14).",
     "C19": " Also: no narrow dtype in the grouping pipeline (R8)."
            " Ratio 1 is the identity also for unknown (nan) psf (R7); "
            "the greedy variant joins the matched group exactly once "
@@ -220,7 +237,8 @@ EXTRA = {
            " No memoised or module-level state on the load path (R7)."
            " Compressed inputs recognised by keyword presence (R8)."
            " The whole loaded block is scaled by BSCALE (R6)."
-           " Nothing memoised in fits_tools (R7).",
+           " Nothing memoised in fits_tools (R7)."
+           " The band's header as a whole, plain and compressed input (R9); whole rows and NAXIS dispatch (R10).",
 }
 
 
